@@ -14,7 +14,7 @@
 (*   [t|->"intrange",lo,hi]  integer within native bounds                  *)
 (* Errors match errors whatever the wording.                               *)
 (***************************************************************************)
-EXTENDS Bytes, Lit
+EXTENDS Scores
 
 ROk == [t |-> "st", v |-> L_OK]
 RSt(b) == [t |-> "st", v |-> b]
@@ -62,6 +62,7 @@ Match(e, o) ==
          (* elements of a bag are exact replies (no nested wildcards) *)
          /\ o.t = "arr"
          /\ SameBag(e.v, o.v)
+    [] e.t = "score" -> o.t = "bulk" /\ ReplyIsScore(o.v, e.s)
     [] e.t = "pick" ->
          /\ o.t = "arr"
          /\ Len(o.v) = e.n
